@@ -263,6 +263,15 @@ main(int argc, char *argv[])
 			fprintf(logf, "A %u\n", seq);
 		} else if (op[0] == 'a' && op[1] == 'f') {
 			ovni_attr_flush();
+		} else if (op[0] == 'a' && op[1] == 'b') {
+			/* a value larger than a stdio buffer */
+			static char big[6001];
+			memset(big, 'm', sizeof(big) - 1);
+			ovni_attr_set_str("verif.big", big);
+		} else if (op[0] == 'a' && op[1] == 'c') {
+			/* a machine with many CPUs */
+			for (int i = 1; i <= 300; i++)
+				ovni_add_cpu(i, 1000 - i);
 		} else if (op[0] == 'c' && op[1] == 'd') {
 			/* the program changes its working directory (nothing the tracing protocol forbids) */
 			mkdir("elsewhere", 0755);
